@@ -124,25 +124,43 @@ Theorem C18_expand_positional_refuted :
 Proof. exact expand_positional_refuted. Qed.
 Print Assumptions C18_expand_positional_refuted.
 
-(* LowerRescale and the result type: fine for i8, ill typed for every other result width (known finding F-C18-3,
-   class rescale_result_not_i8), and then also a different function than the golden model inside F18's safe class *)
+(* LowerRescale and the result type (F-C18-3 repaired, /repo 241b7f1): the expansion converts the clamped i32 value
+   to the result type of the op; the yielded value is well typed for every result width and is the golden
+   model's value on the safe inputs; before the repair it was an i8 whatever the result type. *)
 Theorem C18_rescale_result_i8_ok : forall p,
   rescale_region_for 8 p = rescale_region p /\ yield_typed (rescale_region_for 8 p) = true.
 Proof. exact rescale_result_i8_ok. Qed.
 Print Assumptions C18_rescale_result_i8_ok.
 
-Theorem C18_rescale_result_not_i8_ill_typed : forall wout p,
-  rescale_result_not_i8 wout = true -> yield_typed (rescale_region_for wout p) = false.
-Proof. exact rescale_result_not_i8_ill_typed. Qed.
-Print Assumptions C18_rescale_result_not_i8_ill_typed.
+Theorem C18_rescale_result_typed : forall wout p, yield_typed (rescale_region_for wout p) = true.
+Proof. exact rescale_result_typed. Qed.
+Print Assumptions C18_rescale_result_typed.
+
+Theorem C18_rescale_for_vs_golden : forall wout p x out,
+  rescale_safe_w wout p x = true ->
+  eval_body (rescale_region_for wout p) [x; out] = [golden_rescale p x].
+Proof. exact rescale_for_vs_golden. Qed.
+Print Assumptions C18_rescale_for_vs_golden.
 
 Theorem C18_rescale_result_not_i8_refuted :
   exists wout p x,
-    rescale_result_not_i8 wout = true /\ double_round p = false /\
-    yield_typed (rescale_region_for wout p) = false /\
-    eval_body (rescale_region_for wout p) [x; 0] <> [golden_rescale p x].
+    rescale_result_not_i8 wout = true /\ rescale_safe_w wout p x = true /\
+    yield_typed (rescale_region_for_old wout p) = false /\
+    eval_body (rescale_region_for_old wout p) [x; 0] <> [golden_rescale p x] /\
+    eval_body (rescale_region_for wout p) [x; 0] = [golden_rescale p x].
 Proof. exact rescale_result_not_i8_refuted. Qed.
 Print Assumptions C18_rescale_result_not_i8_refuted.
+
+(* per-channel parameters: the whole class of F18 is the Gallina predicate rescale_safe_pc *)
+Theorem C18_rescale_pc_expand_vs_golden : forall q c x,
+  rescale_safe_pc q c x = true -> expand_rescale_pc q x = golden_rescale_pc q c x.
+Proof. exact rescale_pc_expand_vs_golden. Qed.
+Print Assumptions C18_rescale_pc_expand_vs_golden.
+
+Theorem C18_rescale_per_channel_refuted :
+  exists q c x, pc_dr q = false /\ rescale_safe (chan q c) x = true /\ expand_rescale_pc q x <> golden_rescale_pc q c x.
+Proof. exact rescale_per_channel_refuted. Qed.
+Print Assumptions C18_rescale_per_channel_refuted.
 
 Example C18_expand_wired_nonvacuous :
   let kb := mkKBody [8; 8; 32; 32; 32] KQMacK 32 [1%nat; 0%nat; 3%nat; 3%nat] [None; Some 4%nat] in
